@@ -186,6 +186,7 @@ class ClassModel:
                         raise AnalysisError(f"{self.where}: {cname}() missing field {f}")
             return obj
 
+        make._sa_class = cname  # type: ignore[attr-defined]  # isinstance(x, <a variable holding this class>) resolves through it
         return make
 
     def new(self, cname: str, *args: Any, **kwargs: Any) -> Obj:
